@@ -16,11 +16,11 @@ FIELD_PROP = {
     "cache": "C03",
     "mods": "C04", "kids": "C04", "par": "C04", "irof": "C04", "modof": "C04", "secof": "C04", "agg": "C04",
     "tags": "C04",
-    "named": "C10", "refs": "C10", "sname": "C10", "pay": "C10",
+    "named": "C10", "mnamed": "C04", "refs": "C10", "sname": "C10", "pay": "C10",
     "cfg": "C11", "outs": "C11", "ins": "C11", "nout": "C11", "nin": "C11",
     "symx": "C16",
     "bytes": "C19", "bbytes": "C19", "baddr": "C19", "isz": "C19",
-    "addr": "C06", "off": "C05", "bsz": "C05", "secext": "C06", "entry": "C04", "scal": "C01", "deq": "C18",
+    "addr": "C06", "off": "C05", "bsz": "C05", "secext": "C06", "entry": "C04", "scal": "C01", "deq": "C18", "deqn": "C18",
 }
 
 
@@ -53,7 +53,7 @@ def result_props(op, obs):
         # any other exception: a file written by save from a self-contained IR was not accepted
         return set(RELOAD_PROPS.get(exc, {"C01", "C17"}))
     if op["name"] == "loadfault":
-        return {"C09", "C17"} if op.get("fault") in ("dangling", "ill-typed") else {"C17"}
+        return {"C09", "C17"} if op.get("fault") in ("dangling", "ill-typed", "dup-uuid") else {"C17"}
     return {op_prop(op["name"])}
 
 
@@ -107,6 +107,13 @@ def diff_states(exp, obs):
         if k in UNOBSERVABLE:
             continue
         o = canon_field(k, obs[k])
+        if k == "deqn":
+            for i, d in e.items():
+                for n, want in ({} if d == [] else d).items():
+                    got = (o.get(i) or {}).get(n)
+                    if want != "unknown" and got != want:
+                        out.append((k, "%s.%s" % (i, n), want, got))
+            continue
         if k == "agg":
             for x, d in e.items():
                 for a, s in d.items():
@@ -280,7 +287,7 @@ class Walker:
                     # the reader (C02) and the round trip (C01)
                     props |= {"C01", "C02"}
                 if bad or (op["name"].startswith(("set.", "list.", "symx.")) and
-                           any(f[0] in ("mods", "kids", "symx") for f in d)):
+                           any(f[0] in ("mods", "kids", "par", "symx") for f in d)):   # contents and ownership
                     props.add(op_prop(op["name"]))
                 self.violations.append(Violation("state", props, args_of(op),
                                                  [list(x[:3]) for x in d[:8]], [[x[0], x[1], x[3]] for x in d[:8]],
